@@ -249,7 +249,10 @@ class Unit:
             if rn in enabled:
                 text, hits = rewrite.RULES[rn](text)
                 item['rules'][rn] = hits
-                if hits < enabled[rn]:
+                # `min=` is enforced only for the structural hand-off rule R2: a property-breaking edit may
+                # legitimately remove an occurrence of a syntactic construct (`+=`, an assert, a min/max), and
+                # that must reach the verifier as a failing obligation, not stop here as a lost anchor.
+                if rn == 'R2' and hits < enabled[rn]:
                     raise AnchorLost('%s %s: rule %s expected >=%d hit(s), got %d' % (relpath, name, rn, enabled[rn], hits))
         for rn in enabled:
             if rn not in rewrite.RULES:
